@@ -280,6 +280,18 @@ func (b *Backend) SetHostDefault(n int, o *Outcome) {
 }
 
 // ReleaseOptions sends the withheld OPTIONS answers in the order the requests arrived.
+// SetPrepareOutcomes scripts the answers to the next PREPAREs of the statement with that id (hex); none = accept.
+func (b *Backend) SetPrepareOutcomes(idh string, outs ...Outcome) {
+	b.mu.Lock()
+	if len(outs) == 0 {
+		delete(b.PrepareErr, idh)
+	} else {
+		b.PrepareErr[idh] = outs
+	}
+	b.prepAttempts[idh] = 0
+	b.mu.Unlock()
+}
+
 // QueueOptionsReplies: the next heartbeats (OPTIONS on started connections) are answered with these raw replies.
 func (b *Backend) QueueOptionsReplies(outs ...Outcome) {
 	b.mu.Lock()
